@@ -1,8 +1,10 @@
 #!/bin/sh
 # tools/mutant.sh <ID> <A|B> <check> [<check>...]
-# 1. confirms in a scratch worktree that the seeded change compiles, passes the existing suite, and that its
-#    demonstration fails with the change and passes without it;
-# 2. applies it to /repo, runs the given checks (quick tier), and undoes it straight afterwards.
+# Evaluates one seeded change WITHOUT touching /repo or /verif (so that development can go on meanwhile):
+# 1. scratch worktree of /repo: the demonstration passes on the unchanged source, fails with the change, and the
+#    existing suite still passes with the change;
+# 2. a scratch copy of /verif whose harness is pointed at that changed worktree runs the given checks (quick tier).
+# The equivalent in-place procedure is: git -C /repo apply seeded/<id>/patch.diff; bin/check <ID> quick; git -C /repo checkout -- .
 # Results: /verif/seeded/<ID>-<A|B>/{patch.diff,demo.rs,meta.json,run.log}
 set -u
 ID=$1; WHICH=$2; shift 2
@@ -12,32 +14,33 @@ OUT=/verif/seeded/$ID-$WHICH
 mkdir -p "$OUT"
 cp "$SRC/$WHICH.diff" "$OUT/patch.diff"; cp "$SRC/demo_$low.rs" "$OUT/demo.rs"
 LOG="$OUT/run.log"; : > "$LOG"
-SCR=/tmp/verify-$ID-$WHICH
+SCR=/tmp/mrepo-$ID-$WHICH
+MV=/tmp/mverif-$ID-$WHICH
 git -C /repo worktree add -q --detach "$SCR" HEAD >>"$LOG" 2>&1 || { echo "cannot create worktree" | tee -a "$LOG"; exit 2; }
-cleanup() { git -C /repo worktree remove --force "$SCR" >/dev/null 2>&1; }
+cleanup() { git -C /repo worktree remove --force "$SCR" >/dev/null 2>&1; rm -rf "$MV"; }
 cd "$SCR" || exit 2
-if grep -q serde_json "$SRC/meta.json" 2>/dev/null || grep -q serde_json "$OUT/demo.rs"; then
-  printf '\n[dev-dependencies]\nserde_json = "1"\n' >> Cargo.toml
-fi
+cp Cargo.toml /tmp/Cargo.toml.$ID.$WHICH
+if grep -q serde_json "$OUT/demo.rs"; then printf '\n[dev-dependencies]\nserde_json = "1"\n' >> Cargo.toml; fi
 mkdir -p tests; cp "$OUT/demo.rs" tests/demo.rs
 echo "== demo on the unchanged source" >>"$LOG"
 if CARGO_NET_OFFLINE=true cargo test --offline --test demo >>"$LOG" 2>&1; then PASS_CLEAN=yes; else PASS_CLEAN=no; fi
 git apply "$OUT/patch.diff" >>"$LOG" 2>&1 || { echo "patch does not apply" | tee -a "$LOG"; cleanup; exit 2; }
 echo "== demo with the change" >>"$LOG"
 if CARGO_NET_OFFLINE=true cargo test --offline --test demo >>"$LOG" 2>&1; then FAIL_MUT=no; else FAIL_MUT=yes; fi
-rm -rf tests
+rm -rf tests; cp /tmp/Cargo.toml.$ID.$WHICH Cargo.toml; rm -f /tmp/Cargo.toml.$ID.$WHICH
 echo "== existing suite with the change" >>"$LOG"
 if CARGO_NET_OFFLINE=true cargo test --offline --lib >>"$LOG" 2>&1; then SUITE=pass; else SUITE=fail; fi
-cd /verif; cleanup
+rm -rf "$SCR/target"
 echo "confirmed: demo_passes_clean=$PASS_CLEAN demo_fails_with_change=$FAIL_MUT existing_suite=$SUITE" | tee -a "$LOG"
-# run the checks against /repo with the change applied
-if [ -n "$(git -C /repo status --porcelain)" ]; then echo "/repo is not clean" | tee -a "$LOG"; exit 2; fi
-git -C /repo apply "$OUT/patch.diff" || exit 2
+# scratch copy of the harness pointed at the changed worktree
+mkdir -p "$MV"
+rsync -a --exclude target --exclude replays --exclude .git --exclude seeded /verif/ "$MV"/
+sed -i "s|path = \"/repo\"|path = \"$SCR\"|" "$MV/sim/Cargo.toml"
 RES=""
 for C in "$@"; do
-  OUTC=$(VERIF_NO_EVIDENCE=1 /verif/bin/check "$C" quick 2>&1); RC=$?
-  echo "== check $C exit=$RC" >>"$LOG"; echo "$OUTC" | grep -E "VIOLATION|summary|harness" | cut -c1-400 >>"$LOG"
+  OUTC=$(cd "$MV" && VERIF_NO_EVIDENCE=1 ./bin/check "$C" quick 2>&1); RC=$?
+  echo "== check $C exit=$RC" >>"$LOG"; echo "$OUTC" | grep -E "VIOLATION|summary|harness" | cut -c1-500 | head -8 >>"$LOG"
   RES="$RES $C:$RC"
 done
-git -C /repo checkout -- . 
+cleanup
 echo "checks:$RES" | tee -a "$LOG"
